@@ -14,15 +14,19 @@ def run(ctx):
     thorough = ctx.tier == 'thorough'
     L = relift(ctx)
     NB = 5 if thorough else 4
-    qs = [Query('reread', L, os.path.join(H, 'h_reread.c'), ['NB=%d' % NB], unwind=2 * NB + 8, timeout=1800 if thorough else 400, backend='cadical',
-                desc='literal body of <= %d symbolic bytes, quote in {",\'}: printed literal ends where the tokenizer ends it and re-reads to the same value' % NB),
-          Query('total', L, os.path.join(H, 'h_total.c'), ['NB=%d' % (NB + 1)], unwind=2 * NB + 8, timeout=1800 if thorough else 400, backend='cadical',
-                desc='skipTo/skipFrom/skipWhitespace/escape/unescape on %d arbitrary bytes: in bounds, terminating' % (NB + 1))]
+    qs = []
+    for n in range(0, NB + 1):
+        for qsel in (0, 1):
+            qs.append(Query('reread-n%d-%s' % (n, 'dq' if qsel else 'sq'), L, os.path.join(H, 'h_reread.c'), ['NB=%d' % NB, 'NFIX=%d' % n, 'QSEL=%d' % qsel], unwind=18, timeout=1800 if thorough else 300, backend='cadical',
+                            desc='literal body of exactly %d symbolic bytes, quote %s: printed literal ends where the tokenizer ends it and re-reads to the same value' % (n, '"' if qsel else "'")))
+    for qsel in (0, 1):
+        qs.append(Query('total-%s' % ('dq' if qsel else 'sq'), L, os.path.join(H, 'h_total.c'), ['NB=%d' % (NB - 1), 'QSEL=%d' % qsel], unwind=18, timeout=1800 if thorough else 300, backend='cadical',
+                        desc='skipTo/skipFrom/skipWhitespace/escape/unescape on %d arbitrary bytes: in bounds, terminating' % (NB - 1)))
     if ctx.only:
         qs = [q for q in qs if re.search(ctx.only, q.name)]
     C.selftest(ctx, L, os.path.join(H, 'h_reread.c'), ['NB=%d' % NB], [dict(raw=[92, 34, 97, 98], n=4, qsel=1), dict(raw=[97, 92, 92, 39], n=3, qsel=0), dict(raw=[0] * 4, n=0, qsel=1)], 'rr')
     C.run_queries(ctx, qs)
-    ctx.bounds = {'bytes': 'literal bodies of <= %d arbitrary bytes (well formed: no newline, quotes escaped, no dangling backslash); %d arbitrary bytes for totality' % (NB, NB + 1),
+    ctx.bounds = {'bytes': 'literal bodies of <= %d arbitrary bytes (well formed: no newline, quotes escaped, no dangling backslash); %d arbitrary bytes for totality' % (NB, NB - 1),
                   'units': 'occa::escape, occa::unescape (utils/string.cpp), lex::skipTo/skipFrom/skipWhitespace/skipToWhitespace (utils/lex.cpp) - the functions tokenizer_t::getString/getCharToken and stringToken/charToken/stringNode/charNode::print are built from',
                   'outside': 'tokenizer_t::getToken itself (origin stack, heap tokens: beyond the few symbolic bytes the lifted parser tolerates), identifiers/numbers/operators (operator longest match is the frozen trie of C28), comments, raw strings, longer inputs'}
     ctx.assumptions += ['operator new never fails; real libstdc++ std::string code in the IR']
